@@ -99,25 +99,37 @@ let run_case op t =
       let s = to_text (z_of_int 10) v in
       let p = if List.length s <= cap then join [ "ok"; bytes_s s; "0" ] else "na" in
       (m, p)
-  | "strtol" | "strtoll" | "strtoul" | "strtoull"
-  | "strtol_kf" | "strtoll_kf" | "strtoul_kf" | "strtoull_kf"
-  | "stoi" | "stol" | "stoll" | "stoul" | "stoull"
-  | "stoi_kf" | "stol_kf" | "stoll_kf" | "stoul_kf" | "stoull_kf" ->
-      let name = match String.index_opt op '_' with Some i -> String.sub op 0 i | None -> op in
+  | "strtol" | "strtoll" | "strtoul" | "strtoull" | "stoi" | "stol" | "stoll" | "stoul" | "stoull"
+  | "strtol_n" | "strtoll_n" | "strtoul_n" | "strtoull_n"
+  | "stoi_n" | "stol_n" | "stoll_n" | "stoul_n" | "stoull_n" ->
+      (* "_n": the call with a null end pointer / pos: only the value is observed *)
+      let (name, null_out) = match String.index_opt op '_' with
+        | Some i -> (String.sub op 0 i, true) | None -> (op, false) in
       let ty = (match name with
           | "strtol" | "strtoll" | "stol" | "stoll" -> i64
           | "strtoul" | "strtoull" | "stoul" | "stoull" -> u64
           | "stoi" -> i32 | _ -> raise Not_found) in
       let is_sto = String.length name >= 3 && String.sub name 0 3 = "sto" in
       let base = next_int t in let s = next_codes t in
-      let m = res_s (fun (v, e) -> join [ "v"; str_of_z v; string_of_int (int_of_nat e) ])
-          (strto_m ty s (z_of_int base)) in
+      let show (v, n) = join ([ "v"; str_of_z v ] @ (if null_out then [] else [ string_of_int (int_of_nat n) ])) in
+      let m = res_s show (strto_m ty s (z_of_int base)) in
       let p =
         if not (dom_strto base) then "na"
         else if is_sto then
-          (match sto_spec ty (z_of_int base) s with
-           | Some (v, n) -> join [ "v"; str_of_z v; string_of_int (int_of_nat n) ] | None -> "na")
-        else let (v, n) = strto_spec ty (z_of_int base) s in join [ "v"; str_of_z v; string_of_int (int_of_nat n) ] in
+          (match sto_spec ty (z_of_int base) s with Some r -> show r | None -> "na")
+        else show (strto_spec ty (z_of_int base) s) in
+      (m, p)
+  | "strto_integer" ->
+      (* detail::strto_integer<T> called directly: end, error member, value *)
+      let ty = ity_of (next_str t) in
+      let base = next_int t in let s = next_codes t in
+      let err_s = function TiNone -> "ok" | TiInvalid -> "invalid" | TiOverflow -> "overflow" in
+      let m = res_s (fun ((e, err), v) -> join [ err_s err; string_of_int (int_of_nat e); str_of_z v ])
+          (strto_integer_m ty s (z_of_int base)) in
+      let p =
+        if not (dom_strto base) then "na"
+        else let (v, n) = strto_spec ty (z_of_int base) s in
+          join [ (match strto_class ty (z_of_int base) s with SOk -> "ok" | SNoConv -> "invalid" | SRange -> "overflow"); string_of_int (int_of_nat n); str_of_z v ] in
       (m, p)
   | "atoi" | "atol" | "atoll" ->
       let ty = if op = "atoi" then i32 else i64 in
